@@ -358,7 +358,61 @@ def run_chain(ctx, case):
         ctx.fail('chain:result-unusable:%s' % type(e).__name__, '%s: %s: %s' % (desc, type(e).__name__, e))
 
 
+# the same dimension reached by different constructions (division, negative powers, unit strings) must be the SAME dimension
+CONSTRUCTIONS = {
+    'velocity': ['m/s', 'm s^-1', 'm*s^(-1)', '(s/m)^-1', '(s m^-1)^-1', 'm^2/(m s)', '@inv:m/s', '@sqrt2:m/s'],
+    'frequency': ['1/s', 's^-1', '(s)^(-1)', 'm/(m s)', '(s^2)^-0.5', '@inv:1/s'],
+    'molar-entropy': ['J/(mol K)', 'J mol^-1 K^-1', 'J/mol/K', '(mol K/J)^-1', 'J (mol K)^-1', '@inv:J/(mol K)'],
+    'pressure': ['Pa', 'N/m^2', 'N m^-2', 'J m^-3', '(m^2/N)^-1', '@inv:Pa'],
+    'area': ['m^2', 'm*m', '(m^-2)^-1', '(m^4)^0.5', 'm^3/m', '@inv:m^2', '@sqrt2:m^2'],
+}
+
+
+def enum_constructions(tier):
+    for cls, forms in CONSTRUCTIONS.items():
+        for a in forms:
+            for b in forms:
+                for op in ('==', '!=', '+', '-', '<', '>=', 'has_units', 'in_units'):
+                    yield dict(kind='construction', cls=cls, a=a, b=b, op=op, x=2.5, y=-4.0)
+
+
+def _construct(m, form, x):
+    if form.startswith('@inv:'):
+        # the quantity as the LAST step of a negative power: (1/x of the inverse unit) ** -1
+        return ((1.0 / x) * m['eval_qty']('1/(%s)' % form[5:])) ** -1
+    if form.startswith('@sqrt2:'):
+        return (abs(x) ** 0.5 * m['eval_qty']('(%s)^0.5' % form[7:])) ** 2 * (1 if x > 0 else -1)
+    return x * m['eval_qty'](form)
+
+
+def run_construction(ctx, case):
+    m = _pg()
+    A = _construct(m, case['a'], case['x'])
+    B = _construct(m, case['b'], case['y'])
+    op = case['op']
+    text = '%r*(%s) %s %r*(%s)' % (case['x'], case['a'], op, case['y'], case['b'])
+    ctx.case(nontrivial=case['a'] != case['b'], key=[case['a'], case['b'], op], sample=dict(expr=text))
+    ctx.event('op:construction:%s' % op)
+    try:
+        if op == 'has_units':
+            got, want = A.has_units(B), True
+        elif op == 'in_units':
+            got, want = A.in_units(B), case['x'] / case['y']
+        else:
+            got = PYOP[op](A, B)
+            want = PYOP[op](case['x'], case['y'])
+    except Exception as e:
+        ctx.fail('construction:%s:raises-%s' % (op, type(e).__name__), '%s raised %s: %s (the two operands have the same dimension)' % (text, type(e).__name__, e))
+        return
+    kind, val, dims = unpack(got) if op in ('+', '-') else ('plain', got, None)
+    ok = same_value(float(val) if not isinstance(val, np.ndarray) else val, float(want), 1e-9) if op not in ('==', '!=', '<', '>=', 'has_units') else (bool(val) == bool(want))
+    if not ok:
+        ctx.fail('construction:%s:wrong-result' % op, '%s returned %s; same-dimension operands give %r' % (text, describe(got), want))
+
+
 def check_any(ctx, case):
+    if case['kind'] == 'construction':
+        return run_construction(ctx, case)
     if case['kind'] == 'chain':
         return run_chain(ctx, case)
     if case['kind'] == 'binary':
@@ -427,4 +481,5 @@ FAMILIES = [
     Family('exhaustive', check_any, enumerate=enum_cases),
     Family('random', check_any, strategy=lambda tier: random_case(), n=(12000, 500000)),
     Family('chains', check_any, strategy=lambda tier: chain_case(), n=(4000, 150000)),
+    Family('constructions', check_any, enumerate=enum_constructions),
 ]
